@@ -234,6 +234,19 @@ static std::string stateJson(Context& ctx) {
   return o;
 }
 
+// does every element / item inside a container carry the owner flag (recursively)?
+static bool elemsOwned(Value& v) {
+  if (v.isNull()) return true;
+  if (v.type().level() > 0) {
+    Collection* c = v.collection();
+    for (size_t i = 0; i < c->size(); ++i) { Value& e = c->at(i); if (!e.lvalue() || !elemsOwned(e)) return false; }
+  } else if (v.type().major() == Type::ROWTYPE) {
+    Tuple* t = v.tuple();
+    for (size_t i = 0; i < t->size(); ++i) { Value& e = t->at(i); if (!e.lvalue() || !elemsOwned(e)) return false; }
+  }
+  return true;
+}
+
 static std::string dumpJson(Context& ctx) {
   std::string o = "\"vars\":[";
   size_t n = ctx.verifSymbolCount();
@@ -242,6 +255,7 @@ static std::string dumpJson(Context& ctx) {
     if (i) o += ',';
     o += "{\"n\":" + vj::q(s.name()) + ",\"sty\":" + typeJson(s, &s.tuple_decl()) +
          ",\"safe\":" + (s.safety() ? "true" : "false") + ",\"lock\":" + (s.locked() ? "true" : "false") +
+         ",\"own\":" + (ctx.loadVariable(i).lvalue() ? "true" : "false") + ",\"eown\":" + (elemsOwned(ctx.loadVariable(i)) ? "true" : "false") +
          ",\"val\":" + valueJson(ctx.loadVariable(i)) + "}";
   }
   o += "],\"funcs\":[";
